@@ -6,6 +6,11 @@ import json, subprocess
 ALL = ["C%02d" % i for i in range(1, 20)]
 
 CHECKS = {
+ "C04": dict(
+   category="exploration", design="DESIGN.md §4 C04",
+   text="Exhaustive small-scope enumeration on the real CommitQC/TimeoutQC add()/verify(), LeaderProposal/ReplicaNewView/FinalBlock/Signed verify: all weight vectors over {1,2,3} with <= 4 (quick) / 5 (thorough) validators plus unit committees of 6 (10, 11 thorough); every signer subset assembled incrementally; every single corruption of a listed alphabet applied to every accepted and every boundary-rejected certificate (signer bits, bitmap length, view/epoch/genesis/payload/number, foreign signatures, overlapping groups with genuine double signatures, nested under-weight / wrong-epoch certificates genuinely signed, wrong verification context). Oracle: verdict == the harness's own predicate (distinct members, weight >= n - floor((n-1)/5), signature is the aggregate of exactly the claimed (key, vote) pairs); refused add() leaves the certificate unchanged.",
+   note="BLS12-381 (blst) soundness is trusted; committees > 6 (11) validators, weights > 3 and multi-point corruptions are outside the scope.",
+   technique="exhaustive bounded enumeration of inputs (all committees x signer subsets x single corruptions of a small scope) on the real code against a reference predicate"),
  "C07": dict(
    category="model_checking", design="DESIGN.md §4 C07, §2.5",
    text="Apalache decides the invariant of models/Thresholds.tla for every n in 1..2^64-1; TLC enumerates the model's states explicitly and every dumped state is replayed against the real max_faulty_weight/quorum_threshold/subquorum_threshold and Schedule methods; the real functions are additionally enumerated exhaustively over [1,2^28] (quick) / [1,2^34] (thorough), windows around every power of two and the top of the u64 range, against a u128 transcription and the inequalities themselves. This is the only property whose whole domain is covered (on the model); the code is bound to the model by finite replay.",
